@@ -151,6 +151,9 @@ func writeEvidence(vd, prop, tier string, seed int, cfg *PropCfg, results []*FnR
 	if cfg != nil {
 		cov["bounded_standins"] = cfg.Bounded
 	}
+	if auditRecords != nil {
+		cov["assumption_audits_bounded"] = auditRecords
+	}
 	if replayRegression != nil {
 		cov["witness_replays"] = replayRegression
 	}
